@@ -108,6 +108,10 @@ func (dist *GammaDistribution) LogCdf(r Scalar, x ConstScalar) error {
 }
 
 func (dist *GammaDistribution) Cdf(r Scalar, x ConstScalar) error {
+  if x.GetFloat64() <= 0.0 {
+    r.SetFloat64(0.0)
+    return nil
+  }
   r.Mul(x, dist.Beta)
   r.GammaP(dist.Alpha.GetFloat64(), r)
   return nil
